@@ -130,8 +130,9 @@ pub(crate) fn scan_and_apply_units<S: TexlangState>(
                 }
             }
             super::OptionalSpace::parse(input)?;
-            return match Scaled::from_integer(integer_part) {
-                Ok(integer_part) => Ok(integer_part + fractional_part),
+            // The fractional part may round up to 1, so the overflow check must consider it too.
+            return match Scaled::new(integer_part, fractional_part, common::ScaledUnit::Point) {
+                Ok(s) => Ok(s),
                 Err(_) => handle_overflow(input, first_token, false),
             };
         }
